@@ -172,10 +172,19 @@ def check(ck):
                            "dispatch_method": narrow.T("none", "func"), "path": narrow.ANY})
     ck.stat("e4_operations_classified", an.n_ops)
     ck.stat("e4_functions_analysed", len(an.summaries))
-    for (exc, fi, node, why) in summ.escapes:
-        ck.bad("C02.1", "%s: `%s` may raise %s" % (q.fn(fi), q.stmt_text(node), exc),
-               "%s escapes the dispatcher (%s): the request is not answered, the HTTP layer replies 500" % (exc, why),
-               q.loc(fi, node))
+    with ck.guard("C02.1 escaping exception set"):
+        for (exc, fi, node, why) in summ.escapes:
+            def _by_value(t_):
+                return any((isinstance(x_, ast.Compare) and any(isinstance(o_, (ast.Lt, ast.LtE, ast.Gt, ast.GtE)) for o_ in x_.ops)) or
+                           (isinstance(x_, ast.Call) and dump(x_.func) in ("math.isnan", "math.isinf", "math.isfinite")) for x_ in ast.walk(t_))
+            if why.startswith("explicit raise") and fi.module == "config" and fi.name == "__init__" and "[via Config.copy]" in why:
+                # an argument check by value (a range test on a number) in the configuration classes: whether the values the dispatcher
+                # passes satisfy it is a question about numbers, which E4 does not answer
+                raise AnalysisError("%s validates its arguments and raises %s: whether the values Config.copy() passes while serving a request "
+                                    "(the fields of a configuration that was itself validated) satisfy the check is not modelled" % (q.fn(fi), exc))
+            ck.bad("C02.1", "%s: `%s` may raise %s" % (q.fn(fi), q.stmt_text(node), exc),
+                   "%s escapes the dispatcher (%s): the request is not answered, the HTTP layer replies 500" % (exc, why),
+                   q.loc(fi, node))
     if not summ.escapes:
         ck.ok("C02.1", "%s: escaping exception set" % q.fn(fm), "empty (%d operations classified in %d functions)" % (
             an.n_ops, len(an.summaries)), q.loc(fm, fm.node))
